@@ -18,6 +18,8 @@ SCENARIOS = [
     ("S5-partition", [], ["part", 1], [["part", 1], ["part", 1], ["f", 1], ["f", 1], ["list", "part"]]),
     ("S6-exception-result", [], ["boom", 1], [["boom", 1], ["boom", 1], ["list", "boom"]]),
     ("S7-nested-child-memoized-inside-parent", [], ["parent", 1], [["parent", 1], ["parent", 1], ["f", 1], ["g", 1], ["f", 1]]),
+    ("S8-partition-merged-onto-the-object-returned-in-the-same-run", [], ["child", 1],
+     [["child", 1], ["child", 1], ["part", 1], ["child", 1], ["list", "child"]]),
 ]
 OP_VARIANTS = ["crash", "enospc"]
 WRITE_VARIANTS = ["crash", "crash_half", "crash_q3", "crash_most", "enospc", "efbig_half", "efbig_most"]
